@@ -16,10 +16,13 @@
     [step dh p o] = effect of one abstract operation [o] of a run with private state [p]
     on the definition heap [dh].  The operations are the effects of pypyr's code:
 
-      InjectIn k c     Step.set_step_input_context / pypyr.steps.configvars:
-                       context.update(copy.deepcopy(in)) — context[k] is a private deep copy of
-                       the definition's object c  (before commit d9572b0 it WAS the object:
-                       that machine is kept as [step_aliasing])
+      InjectIn k c     every transfer point "shared definition/config object -> context":
+                       Step.set_step_input_context and pypyr.steps.configvars
+                       (context.update(copy.deepcopy(..)), commit d9572b0) and
+                       Pipeline.new_pipe_and_args handing list(parser_args) of a config shortcut
+                       to the context parser (pypyr.parser.list binds it to argList; commit
+                       fd90231) — context[k] is a private copy of the shared object c.  Before
+                       those commits it WAS the object: that machine is kept as [step_aliasing]
       Unset k          Step.unset_step_input_context: context.pop(k, None)
       SetFmt k t       pypyr.steps.set / contextsetf / the foreach copy: context[k] = format(t)
                        (formatting REBUILDS containers; '{k}' deep-copies context[k] with the
